@@ -46,6 +46,33 @@ def graph_shape(shape, n):
 
 TRI_V = [(0, 0, 0), (1, 0, 0), (0, 1, 0)]
 
+# ----------------------------------------------------------------------------------------------
+# the SHAPE of a name that many records share.  Loaders make repeated names unique (`part`, `part_1`, ...) and
+# keep a memo so that the k-th record does not walk over the k - 1 names handed out before; what the memo is
+# keyed by and where the search starts depends on how the name ENDS.  A family that repeats one name is rendered
+# once per shape: `<family>` is the plain name, `<family>@<shape>` the others.
+NAME_SHAPES = {
+    "plain": lambda base: base,
+    "_int": lambda base: base + "_1",  # ends like the names the loader itself hands out
+    "_pad": lambda base: base + "_001",  # zero padded counter (Cube_001)
+    "_big": lambda base: base + "_70000",  # a counter beyond the number of records
+    "digits": lambda base: base + "1",  # digits without the delimiter
+    "_text": lambda base: base + "_a",  # the delimiter, not followed by a number
+    "_": lambda base: base + "_",  # the delimiter at the very end
+    "empty": lambda base: "",  # no name at all
+    "long": lambda base: base + "-" + "n" * 120,  # a long name
+}
+
+
+def shaped(family):
+    """'solids@_int' -> ('solids', '_int'); 'solids' -> ('solids', 'plain')."""
+    family, _, shape = family.partition("@")
+    return family, shape or "plain"
+
+
+def _name(base, shape):
+    return NAME_SHAPES[shape](base)
+
 # ---- 3MF
 
 NS_3MF = "http://schemas.microsoft.com/3dmanufacturing/core/2015/02"
@@ -79,7 +106,7 @@ def threemf_graph(shape, n):
     return _zip([("3D/3dmodel.model", xml)])
 
 
-def threemf_items(n):
+def threemf_items(n, name="part"):
     # n build items of one object
     mesh = (
         "<mesh><vertices>" + "".join('<vertex x="%d" y="%d" z="%d"/>' % v for v in TRI_V)
@@ -88,7 +115,26 @@ def threemf_items(n):
     items = "".join('<item objectid="1" transform="1 0 0 0 1 0 0 0 1 %d 0 0"/>' % i for i in range(int(n)))
     xml = (
         '<?xml version="1.0" encoding="UTF-8"?>\n<model unit="millimeter" xmlns="%s"><resources>'
-        '<object id="1" name="part" type="model">%s</object></resources><build>%s</build></model>' % (NS_3MF, mesh, items)
+        '<object id="1" name="%s" type="model">%s</object></resources><build>%s</build></model>' % (NS_3MF, name, mesh, items)
+    )
+    return _zip([("3D/3dmodel.model", xml)])
+
+
+def threemf_objects(n, name="part"):
+    # object 1 carries the mesh; n - 1 more objects consist of one component (object 1) each; all of them carry the
+    # same name and every one has a build item
+    mesh = (
+        "<mesh><vertices>" + "".join('<vertex x="%d" y="%d" z="%d"/>' % v for v in TRI_V)
+        + '</vertices><triangles><triangle v1="0" v2="1" v3="2"/></triangles></mesh>'
+    )
+    n = int(n)
+    objs = '<object id="1" name="%s" type="model">%s</object>' % (name, mesh) + "".join(
+        '<object id="%d" name="%s" type="model"><components><component objectid="1"/></components></object>' % (i + 2, name)
+        for i in range(n - 1))
+    items = "".join('<item objectid="%d"/>' % (i + 1) for i in range(n))
+    xml = (
+        '<?xml version="1.0" encoding="UTF-8"?>\n<model unit="millimeter" xmlns="%s"><resources>%s</resources>'
+        "<build>%s</build></model>" % (NS_3MF, objs, items)
     )
     return _zip([("3D/3dmodel.model", xml)])
 
@@ -146,7 +192,7 @@ def _big_positions(count):
     return _f32(out)
 
 
-def gltf_records(kind, n, ext="glb", vertices=21000):
+def gltf_records(kind, n, ext="glb", vertices=21000, shape="plain"):
     """One mesh over a vertex buffer of `vertices` points, plus n more records of one kind that
     are well-formed and that nothing uses: buffer views / accessors over the same buffer,
     nodes / meshes / materials.  Every number in the file agrees with the lengths."""
@@ -160,15 +206,17 @@ def gltf_records(kind, n, ext="glb", vertices=21000):
         doc["accessors"] += [{"bufferView": 0, "byteOffset": 12, "componentType": 5126, "count": len(pos) // 12 - 1, "type": "VEC3"}
                              for _ in range(n)]
     elif kind == "nodes":  # n instances of the mesh below one root
-        doc["nodes"] = [{"children": list(range(1, n + 1))}] + [{"mesh": 0, "name": "part", "translation": [i, 0, 0]} for i in range(n)]
+        doc["nodes"] = [{"children": list(range(1, n + 1))}] + [{"mesh": 0, "name": _name("part", shape), "translation": [i, 0, 0]} for i in range(n)]
     elif kind == "meshes":  # n meshes of the same name, one node each
-        doc["meshes"] = [{"name": "part", "primitives": [{"attributes": {"POSITION": 0}}]} for _ in range(n)]
+        doc["meshes"] = [{"name": _name("part", shape), "primitives": [{"attributes": {"POSITION": 0}}]} for _ in range(n)]
         doc["nodes"] = [{"children": list(range(1, n + 1))}] + [{"mesh": i} for i in range(n)]
     elif kind == "materials":
-        doc["materials"] = [{"name": "mat", "pbrMetallicRoughness": {"baseColorFactor": [1, 0, 0, 1]}} for _ in range(n)]
+        doc["materials"] = [{"name": _name("mat", shape), "pbrMetallicRoughness": {"baseColorFactor": [1, 0, 0, 1]}} for _ in range(n)]
         doc["meshes"][0]["primitives"][0]["material"] = n - 1
-    elif kind == "primitives":  # one mesh made of n primitives
+    elif kind == "primitives":  # one mesh made of n primitives (they share the name of the mesh)
         doc["meshes"][0]["primitives"] = [{"attributes": {"POSITION": 0}} for _ in range(n)]
+        if shape != "plain":
+            doc["meshes"][0]["name"] = _name("part", shape)
     else:
         raise ValueError(kind)
     return _pack_gltf(doc, blob, ext)
@@ -212,6 +260,20 @@ def threedxml_graph(shape, n):
     ])
 
 
+def threedxml_faces(n):
+    # one representation whose <Faces> element has n <Face> children of one triangle each
+    face = '<Face triangles="0 1 2"/>'
+    assert _3DXML_REP.count(face) == 1
+    members = dict(_unzip(threedxml_graph("fan", 1)))
+    members["geom.3DRep"] = _3DXML_REP.replace(face, face * int(n))
+    return _zip(list(members.items()))
+
+
+def _unzip(blob):
+    with zipfile.ZipFile(io.BytesIO(blob)) as z:
+        return [(name, z.read(name).decode()) for name in z.namelist()]
+
+
 # ---- COLLADA
 
 
@@ -236,6 +298,19 @@ def dae_graph(shape, n):
         '</library_visual_scenes><scene><instance_visual_scene url="#scene"/></scene></COLLADA>' % ("".join(nodes), nid(root))
     )
     return xml.encode()
+
+
+def dae_primitives(n, name="geo"):
+    # one geometry made of n <triangles> primitives: every primitive becomes a mesh called after the geometry
+    n = int(n)
+    doc = dae_graph("fan", 1).decode()
+    tri = '<triangles count="1"><input semantic="VERTEX" source="#geo-vtx" offset="0"/><p>0 1 2</p></triangles>'
+    assert doc.count(tri) == 1
+    doc = doc.replace(tri, tri * n)
+    if name != "geo":  # the id of the geometry and the one reference to it; the ids of its sources stay
+        doc = doc.replace('<geometry id="geo" name="geo">', '<geometry id="%s" name="%s">' % (name, name))
+        doc = doc.replace('<instance_geometry url="#geo"/>', '<instance_geometry url="#%s"/>' % name)
+    return doc.encode()
 
 
 def dae_nested(n):
@@ -328,13 +403,14 @@ def dxf_doc(family, n, entities=1000):
 # ---- OBJ
 
 
-def obj_doc(family, n):
+def obj_doc(family, n, shape="plain"):
     n = int(n)
     head = "v 0 0 0\nv 1 0 0\nv 0 1 0\n"
     if family == "materials":  # n groups, a material each, no object name
         return (head + "".join("usemtl m%d\nf 1 2 3\n" % i for i in range(n))).encode()
     if family == "same_object":  # n groups, every one called `part`
-        return (head + "".join("o part\nusemtl m%d\nf 1 2 3\n" % i for i in range(n))).encode()
+        o = ("o " + _name("part", shape)).strip()
+        return (head + "".join(o + "\nusemtl m%d\nf 1 2 3\n" % i for i in range(n))).encode()
     if family == "same_material":  # n objects that share one material
         return (head + "".join("o p%d\nusemtl m\nf 1 2 3\n" % i for i in range(n))).encode()
     if family == "groups":
@@ -399,11 +475,12 @@ def off_doc(family, n):
     raise ValueError(family)
 
 
-def stl_doc(family, n):
+def stl_doc(family, n, shape="plain"):
     n = int(n)
     facet = "facet normal 0 0 1\nouter loop\nvertex 0 0 0\nvertex 1 0 0\nvertex 0 1 0\nendloop\nendfacet\n"
     if family == "solids":  # n solids of the same name
-        return ("".join("solid part\n" + facet + "endsolid part\n" for _ in range(n))).encode()
+        name = _name("part", shape)
+        return ("".join(("solid " + name).strip() + "\n" + facet + ("endsolid " + name).strip() + "\n" for _ in range(n))).encode()
     if family == "long_name":
         return ("solid " + "n" * n + "\n" + facet * 200 + "endsolid\n").encode()
     raise ValueError(family)
@@ -418,21 +495,42 @@ def stl_doc(family, n):
 # enough that a loader which is linear with a LARGE constant stays below half of it - one Trimesh object per
 # 26-byte <instance_node/> is 10 KB per instance, an SVG arc costs 17 us per byte - because the statement asks
 # for proportionality, not for a particular constant.  That is why the record families stop at a few thousand.
+#
+# Name shapes (`<family>@<shape>`): a search for a free name that starts over for every record costs about 0.15 us per
+# pair of records; the sizes are those where that is twice the bound (OBJ groups and glTF primitives are ~30 bytes a
+# record, glTF nodes 57, ASCII STL solids 115, COLLADA primitives 100, 3MF objects 120: the longer the record the
+# larger the file has to be, so the quick tier has every shape on GLB nodes, most on GLB primitives, two on OBJ, and small files - or none - of the others).
+ALL_SHAPES = tuple(k for k in NAME_SHAPES if k != "plain")
+FEW_SHAPES = ("_int", "_pad", "empty", "long")
+
+
+def _named(family, shapes, quick, thorough):
+    return [("%s@%s" % (family, s), quick, thorough) for s in shapes]
+
+
 GRAPHS = (("chain", (600,), (150, 600, 1800)), ("diamond", (18,), (10, 18, 26, 40)), ("ring", (48,), (12, 48, 200)),
           ("loop", (200,), (3, 200, 2000)), ("fan", (3000,), (300, 3000)))
 FAMILIES = {
-    "3mf": [("graph:" + s, q, t) for s, q, t in GRAPHS] + [("items", (3000,), (300, 3000))],
-    "gltf": [("graph:" + s, q, t) for s, q, t in GRAPHS] + [("records:nodes", (4000,), (400, 4000))],
+    "3mf": [("graph:" + s, q, t) for s, q, t in GRAPHS] + [("items", (3000,), (300, 3000))]
+    + [("objects", (3000,), (3000, 30000))] + _named("objects", ("_int", "empty"), (3000,), ()) + _named("objects", FEW_SHAPES, (), (30000,))
+    + _named("items", FEW_SHAPES, (3000,), (3000,)),
+    "gltf": [("graph:" + s, q, t) for s, q, t in GRAPHS] + [("records:nodes", (4000,), (400, 4000))]
+    + _named("records:nodes", FEW_SHAPES, (), (16000,)),
     "glb": [("records:" + k, q, t) for k, q, t in (
         ("views", (1500,), (150, 1500, 6000)), ("accessors", (1500,), (150, 1500, 6000)), ("nodes", (4000,), (400, 4000)),
         ("meshes", (4000,), (400, 4000)), ("materials", (4000,), (400, 4000)), ("primitives", (4000,), (400, 4000)))]
-    + [("graph:chain", (), (600, 1800)), ("graph:diamond", (), (18, 26))],  # the same document as .gltf: thorough tier
+    + [("graph:chain", (), (600, 1800)), ("graph:diamond", (), (18, 26))]  # the same document as .gltf: thorough tier
+    + _named("records:primitives", FEW_SHAPES + ("_big",), (14000,), (14000,)) + _named("records:primitives", ("digits", "_text", "_"), (), (14000,))
+    + _named("records:nodes", ALL_SHAPES, (16000,), (16000,))
+    + _named("records:meshes", FEW_SHAPES, (), (30000,)) + _named("records:materials", FEW_SHAPES, (4000,), (4000,)),
     # (3DXML: a ring is enumerated like a diamond - simple paths - and costs the quick tier another full bound)
-    "3dxml": [("graph:" + s, q if s != "ring" else (), t) for s, q, t in GRAPHS],
+    "3dxml": [("graph:" + s, q if s != "ring" else (), t) for s, q, t in GRAPHS]
+    + [("records:faces", (3000,), (300, 3000, 12000))],
     # (COLLADA: pycollada resolves one forward reference of <library_nodes> per pass - quadratic, 3.2 s at 600
     # levels against a bound of 6.1 s: the quick tier stays clear of the bound, the thorough tier is well over it)
     "dae": [("graph:" + s, q if s != "chain" else (300,), t if s != "chain" else (300, 1500)) for s, q, t in GRAPHS]
-    + [("nested", (240,), (60, 240))],
+    + [("nested", (240,), (60, 240))]
+    + [("primitives", (2000,), (2000, 30000))] + _named("primitives", ("_int", "empty"), (2000,), ()) + _named("primitives", FEW_SHAPES, (), (30000,)),
     "xaml": [("nested", (240,), (60, 240))],
     "svg": [("transform_list", (700,), (175, 700, 2800)), ("transform_paths", (3000,), (300, 3000)),
             ("nested_groups", (240,), (60, 240)), ("segments", (20000,), (2000, 20000, 200000)),
@@ -440,14 +538,16 @@ FAMILIES = {
     "dxf": [("long_comment", (8000,), (2000, 8000, 100000)), ("long_layer", (8000,), (2000, 100000)),
             ("long_text", (8000,), (2000, 100000)), ("lines", (20000,), (2000, 100000)),
             ("polyline", (20000,), (2000, 200000)), ("layers", (5000,), (500, 20000)), ("inserts", (5000,), (500, 20000))],
-    "obj": [("materials", (9000,), (2000, 9000)), ("same_object", (), (2000, 9000)),
+    "obj": [("materials", (9000,), (2000, 9000)), ("same_object", (12000,), (2000, 12000))]
+    + _named("same_object", ("_int", "empty"), (12000,), ()) + _named("same_object", ALL_SHAPES, (), (12000,)) + [
             ("same_material", (9000,), (2000, 9000)), ("groups", (9000,), (2000, 9000)),
             ("polygon", (20000,), (2000, 200000)), ("long_comment", (100000,), (10000, 1000000))],
     "ply": [("face_lists", (2000,), (500, 2000, 8000)), ("face_lists:ascii", (2000,), (500, 8000)),
             ("vertex_scalars", (2000,), (500, 8000)), ("vertex_scalars:ascii", (2000,), (500, 8000)),
             ("elements", (2000,), (500, 8000)), ("elements:ascii", (2000,), (500, 8000)), ("comments", (20000,), (2000, 200000))],
     "off": [("polygon", (20000,), (2000, 200000)), ("long_comment", (100000,), (1000000,))],
-    "stl_ascii": [("solids", (6000,), (600, 16000)), ("long_name", (100000,), (1000000,))],
+    "stl_ascii": [("solids", (6000,), (600, 16000, 30000)), ("long_name", (100000,), (1000000,))]
+    + _named("solids", FEW_SHAPES, (), (30000,)),  # (115 bytes a solid: too long for the quick tier)
 }
 # formats whose files describe meshes: every entry point takes them
 MESH_EXT = ("3mf", "gltf", "glb", "3dxml", "dae", "xaml", "obj", "ply", "off", "stl_ascii")
@@ -455,6 +555,7 @@ MESH_EXT = ("3mf", "gltf", "glb", "3dxml", "dae", "xaml", "obj", "ply", "off", "
 
 def make(ext, family, n):
     """The file of one family at size n, as bytes."""
+    family, shape = shaped(family)
     kind, _, arg = family.partition(":")
     if kind == "graph":
         if ext == "3mf":
@@ -466,12 +567,18 @@ def make(ext, family, n):
         if ext == "dae":
             return dae_graph(arg, n)
         raise ValueError((ext, family))
+    if ext == "3dxml" and family == "records:faces":
+        return threedxml_faces(n)
     if ext == "3mf" and kind == "items":
-        return threemf_items(n)
+        return threemf_items(n, name=_name("part", shape))
+    if ext == "3mf" and kind == "objects":
+        return threemf_objects(n, name=_name("part", shape))
     if ext in ("gltf", "glb") and kind == "records":
-        return gltf_records(arg, n, ext=ext)
+        return gltf_records(arg, n, ext=ext, shape=shape)
     if ext == "dae" and kind == "nested":
         return dae_nested(n)
+    if ext == "dae" and kind == "primitives":
+        return dae_primitives(n, name=_name("geo", shape))
     if ext == "xaml":
         return xaml_nested(n)
     if ext == "svg":
@@ -479,11 +586,11 @@ def make(ext, family, n):
     if ext == "dxf":
         return dxf_doc(family, n)
     if ext == "obj":
-        return obj_doc(family, n)
+        return obj_doc(family, n, shape=shape)
     if ext == "ply":
         return ply_doc(kind, n, encoding=arg or "binary")
     if ext == "off":
         return off_doc(family, n)
     if ext == "stl_ascii":
-        return stl_doc(family, n)
+        return stl_doc(family, n, shape=shape)
     raise ValueError((ext, family))
